@@ -133,6 +133,11 @@ func (fx *Fx) evalPlace(st *State, e ast.Expr, spec bool) Place {
 			fx.scannerCell(st, sv.X)
 			return Place{loc: &Loc{kind: locCell, key: "ghost_scanner", ref: sv.X, T: sv.T, S: scannerSort}}
 		}
+		if id, ok := x.Fun.(*ast.Ident); ok && spec && id.Name == "chancell" && len(x.Args) == 1 {
+			cv := fx.eval(st, x.Args[0], true)
+			fx.chanCell(st, cv.X)
+			return Place{loc: &Loc{kind: locCell, key: "ghost_chan", ref: cv.X, T: cv.T, S: chanSort}}
+		}
 		if id, ok := x.Fun.(*ast.Ident); ok && spec && id.Name == "mapcell" && len(x.Args) == 1 {
 			// mapcell(m): the contents of map m, as a location (for modifies clauses)
 			mv := fx.eval(st, x.Args[0], true)
